@@ -720,6 +720,48 @@ func RunC19Shredding(ctx *core.Ctx) {
 		}()
 	}
 	wg.Wait()
+	c19ShredSNaNProbe(ctx)
+}
+
+// c19ShredSNaNProbe: raw variant bytes holding a float32 signalling NaN, written through a shredded
+// column (typed FLOAT column, and a column of another type so that the value falls back to `value`)
+// and read back raw: the bytes read are compared with the bytes written.
+func c19ShredSNaNProbe(ctx *core.Ctx) {
+	meta := []byte{0x11, 0x00, 0x00}
+	for _, leaf := range []struct {
+		name string
+		node parquet.Node
+	}{{"typed-float", parquet.Leaf(parquet.FloatType)}, {"fallback", parquet.String()}} {
+		vn, err := parquet.ShreddedVariant(leaf.node)
+		if err != nil {
+			continue
+		}
+		schema := parquet.NewSchema("table", parquet.Group{"id": parquet.Int(32), "var": vn})
+		var rows []c19RowAny
+		for i, bits := range c19F32SNaN {
+			value := []byte{14 << 2, byte(bits), byte(bits >> 8), byte(bits >> 16), byte(bits >> 24)}
+			rows = append(rows, c19RowAny{ID: int32(i), Var: c19Raw{Metadata: meta, Value: value}})
+		}
+		data, err := c19WriteGeneric(schema, rows, "generic")
+		if err != nil {
+			ctx.Fail("L1", "write-fails snan-probe", err.Error(), nil)
+			continue
+		}
+		got, err := c19ReadPath("raw-direct", data, schema, len(rows))
+		if err != nil || len(got) != len(rows) {
+			ctx.Fail("L1", "read-fails snan-probe", fmt.Sprint(err), nil)
+			continue
+		}
+		for i, g := range got {
+			want := rows[i].Var.(c19Raw).Value
+			ctx.Case("shred-snan "+leaf.name+" "+core.Hex(want), true)
+			if !bytes.Equal(g.raw.Value, want) {
+				ctx.Hist("shred.note", "float32-snan-changed "+leaf.name)
+				ctx.Fail("L1", "float32-signalling-nan-quieted", "a float32 signalling NaN written (raw variant bytes) through a shredded column reads back with another payload (NaN compared by bits)",
+					map[string]any{"schema": leaf.name, "written_value_hex": core.Hex(want), "read_value_hex": core.Hex(g.raw.Value)})
+			}
+		}
+	}
 }
 
 func c19ShredCase(ctx *core.Ctx, r *rand.Rand, p *c19Pending, sample bool) {
